@@ -144,7 +144,10 @@ def do_run(filters):
             if r.returncode != 0:
                 rows.append((name, prop, tier_env, "patch-does-not-apply", "", ""))
                 continue
-            for tier in ([tier_env] if tier_env != "both" else ["quick", "thorough"]):
+            tiers = [tier_env] if tier_env != "both" else ["quick", "thorough"]
+            if meta.get("tier") == "thorough" and tier_env == "quick":
+                tiers = ["thorough"]  # changes that need billions of operations: only the thorough tier reaches them
+            for tier in tiers:
                 t0 = time.time()
                 r = sh([os.path.join(ROOT, "check"), prop, tier], cwd=ROOT, env=dict(ENV, VERIF_REPO=wt), timeout=7200)
                 det = {0: "MISSED", 1: "caught", 2: "infra"}.get(r.returncode, str(r.returncode))
@@ -153,14 +156,26 @@ def do_run(filters):
                 if det == "caught" and os.environ.get("SEED_REPLAY", "1") != "0":
                     # the shrunk case must reproduce from its replay file on the changed
                     # tree and pass on /repo (the property holds there for that very case)
-                    m = re.search(r"^VIOLATION property=\S+ replay=(\S+)", r.stdout, re.M)
-                    if m and m.group(1).endswith(".json") and "-race-" not in m.group(1):
-                        a = sh([os.path.join(ROOT, "check"), prop, "--replay", m.group(1)], cwd=ROOT, env=dict(ENV, VERIF_REPO=wt), timeout=900)
-                        b = sh([os.path.join(ROOT, "check"), prop, "--replay", m.group(1)], cwd=ROOT, env=ENV, timeout=900)
-                        rp = "replay: changed tree exit %d, /repo exit %d" % (a.returncode, b.returncode)
-                        if a.returncode != 1 or b.returncode != 0:
+                    # a report may name several replay files (one per leg and shard); the
+                    # modes that depend on the scheduler or on sync.Pool retention do not
+                    # reproduce every time, so: every file must pass on /repo, and at least
+                    # one must fail again on the changed tree
+                    paths = [p for p in re.findall(r"^VIOLATION property=\S+ replay=(\S+)", r.stdout, re.M) if p.endswith(".json") and "-race-" not in p][:5]
+                    if paths:
+                        again, clean, tried = False, True, 0
+                        for rpath in paths:
+                            tried += 1
+                            a = sh([os.path.join(ROOT, "check"), prop, "--replay", rpath], cwd=ROOT, env=dict(ENV, VERIF_REPO=wt), timeout=4000)
+                            b = sh([os.path.join(ROOT, "check"), prop, "--replay", rpath], cwd=ROOT, env=ENV, timeout=4000)
+                            clean = clean and b.returncode == 0
+                            if a.returncode == 1:
+                                again = True
+                            if again or not clean:
+                                break
+                        rp = "replay: %s on the changed tree (%d file(s) tried), %s on /repo" % ("fails again" if again else "does NOT fail again", tried, "passes" if clean else "FAILS")
+                        if not again or not clean:
                             det = "caught-but-replay-wrong"
-                    elif m:
+                    elif "VIOLATION" in r.stdout:
                         rp = "replay: race log / schedule-dependent, not replayed"
                 rows.append((name, prop, tier, det, "%.0fs" % (time.time() - t0), (rp + " | " if rp else "") + first))
                 print("\t".join(rows[-1]), flush=True)
